@@ -11,7 +11,12 @@ CFG = {
              "(x*MAX+0.5) as uN) on ALL 2^32 bit patterns: NaN->0, +-inf saturate, every finite value -> nearest code, "
              "except exactly 128 (U8) / 32768 (U16) patterns, each the largest float below a tie (2k-1)/(2 MAX), proved to "
              "come out one code high and inside the tie tolerance (monotone software float + kernel-checked threshold "
-             "tables, Proofs/F32Mono.lean, F32Thr*.lean); the pinned 45-format field table is "
+             "tables, Proofs/F32Mono.lean, F32Thr*.lean); the YUV decoders yuv8/yuv10/yuv16::{n8,n16,f32} on ALL inputs "
+             "(2^24 / 2^30 / 2^48 triples, no enumeration): every channel satisfies the oracle's admissibility predicate "
+             "(code: |k/max - ideal| <= 1/(2 max) + 2^-12/255; f32: finite and within 2^-12/255 + 2^-24), from a proved "
+             "rounding-error bound (standard model of floating-point arithmetic for the bit-level operators, "
+             "Proofs/F32Err*.lean; |f32 channel - ideal| <= 10*2^-24 at every depth, Proofs/YuvErr.lean) composed with the "
+             "all-patterns theorems of fp::n8/n16; exact saturation outside a 2^-20 margin; the pinned 45-format field table is "
              "well formed; sub-sampled and bi-planar decoding pairs every pixel with the chroma sample of its own cell for "
              "all widths/heights. The model (software binary32, bit-exact) is tied to dds::decode by a differential run "
              "that is exhaustive for <=16-bit pixels and per field for wider ones.",
@@ -20,8 +25,9 @@ CFG = {
             "the 65536-point evaluations of the 16-bit->f32 and half conversions run inside the kernel on an integer "
             "representation of the software float (Proofs/ConvFast*.lean) that is proved equal to the model for all "
             "arguments, so it adds nothing to the trusted base; the threshold tables of fp::n8/n16 are produced by an "
-            "untrusted script (tools/gen_f32thr.py) and validated entry by entry in the kernel; not proved in Lean: YUV "
-            "(>= 2^24 triples, sampled tie only); "
+            "untrusted script (tools/gen_f32thr.py) and validated entry by entry in the kernel; the YUV theorems are "
+            "symbolic (error analysis over Rat, core tactics only), their generator cases (section Y) come from the "
+            "untrusted tools/yuv_worst.py and only strengthen the tie; "
             "IEEE-754 +,-,*,/ being correctly rounded and evaluated operator by operator in binary32 by rustc/x86-64.",
     "profiles": ["release", "checked"],
     "level": "proof",
@@ -30,7 +36,7 @@ CFG = {
             "the other bits 0 / all ones / random; (C) splitmix random surfaces for 24 geometries (odd and even widths "
             "and heights, 1x1 .. 1025x1) x {U8,U16,F32} x native and other channel sets; (D) float specials (signed "
             "zeros, subnormals, ties, 65504, max finite, infinities, NaN payloads) and f32 inputs next to every U8 / "
-            "sampled U16 rounding tie. Non-trivial = decoded (result starts with ok); distinct = distinct case lines. "
+            "sampled U16 rounding tie; (Y) YUV lattice / clamp-boundary / worst-error triples for AYUV, Y410, Y416. Non-trivial = decoded (result starts with ok); distinct = distinct case lines. "
             "Oracle tolerance (only YUV outputs and integer outputs of float-valued fields, which the library evaluates in "
             "f32): a code is accepted iff |code/max - ideal| <= 1/(2 max) + 2^-12/255; everything else must be a nearest "
             "code / the correctly rounded f32.",
